@@ -1,79 +1,139 @@
 """C08 — the step-wise generator equals the batch solution for any send history
 (DESIGN.md section 6/C08).
 
-Tie: correspondence over HISTORIES.  The real generators of /repo (SolveUnc real-uncoupled,
-SolveUnc complex-coupled, SolveUnc(cd_as_force=True), SolveCDF, SolveExp2) and the Lean machines
-(lean/PyYetiVerif/Model/GenMachine.lean: `stepApi` on a dense one-step map built from the
-solver's own integration coefficients, `cdfStepApi` = the concrete cd-as-force generator with
-its hidden cache) are driven by the same request lists; after EVERY request the column the
-request wrote (d, v, static rows, Force), the cd-as-force generator's hidden locals
-(`dmpfrc1`, `i_last`) and the error kind of refused requests are compared; `get_f2x` is compared
-with `GenMachine.f2x` of the same maps.  Floats travel as bit patterns; the Force column is
-compared bit for bit, everything else to 1e-9 of scale (BLAS summation order).
+Tie: correspondence over HISTORIES and over CALL SEQUENCES.  The real generators of /repo (SolveUnc
+real-uncoupled, SolveUnc complex-coupled, SolveUnc(cd_as_force=True), SolveCDF, SolveExp2) and
+their statement-by-statement Lean transcriptions (lean/PyYetiVerif/Model/GenMachineInst.lean:
+`uncStepApi`, `exp2StepApi`, `cplxStepApi`; Model/GenMachine.lean: `cdfStepApi` with its hidden
+cache) are driven by the same request lists.  The Lean side gets the configuration (partition,
+m / b / k, d0 / v0 / static_ic, F0) and the solver's stored integration coefficients and computes
+everything else itself: the first column (`initDvaPart`, `initDva`), every request, `finalize`
+(`eomAcc`, `finalizeRec`), whole call sequences on one object (`objRun`), `get_f2x` (`apiF2x` of
+the generator's own one-step map).  Streams:
+
+  hist  after EVERY request the column written (d, v, the rows of a the generator writes, Force),
+        the cd-as-force generator's hidden locals, the error kind of refused requests — bit for
+        bit on the real-uncoupled generator (elementwise arithmetic only), Force always bit for
+        bit, otherwise 1e-9 of scale (BLAS / LAPACK summation order);
+  ic    the first column of d, v through generator() and through tsolve() for every option
+        combination d0 x v0 x static_ic and several F0 (generic, zero on the elastic rows, zero,
+        dyadic) — bit for bit for the uncoupled solvers;
+  api   call sequences on ONE solver object (generator() twice, generator / tsolve / resume,
+        finalize twice, finalize of partial histories, get_f2x around generator(), a generator
+        resumed after finalize, a generator killed by a refused request): every answer compared;
+  f2x   get_f2x against `apiF2x`.
 
 Model-free oracle (`search`): generator vs batch `tsolve` of the force history in effect after
-every request, `finalize` vs batch, `get_f2x` vs the change a unit add-on produces.
+every request, `finalize` vs batch, the equation of motion / static rf rows / zero unvisited
+columns on EVERY column of a finalized record, the first column against the documented meaning
+of d0 / v0 / static_ic, call sequences on one object against the same work on fresh objects,
+`get_f2x` vs the change a unit add-on produces.
 """
 import itertools
 import json
 import struct
 import warnings
+from types import SimpleNamespace
 
 import numpy as np
 
-from runner import Infra
+from runner import Infra, TieBroken
 
 ID = "C08"
-LEAN_MODULES = ["PyYetiVerif.Props.C08", "PyYetiVerif.Audit.C08"]
+LEAN_MODULES = ["PyYetiVerif.Props.C08", "PyYetiVerif.Props.C08Init", "PyYetiVerif.Props.C08Inst",
+                "PyYetiVerif.Props.C08Api", "PyYetiVerif.Props.C08Branches", "PyYetiVerif.Audit.C08"]
 AUDIT_FILE = "PyYetiVerif/Audit/C08.lean"
 THEOREMS = [
     "PyYetiVerif.C08." + n
     for n in (
         "gen_invariant visible_eq_batch history_independent finalize_eq_batch f2x_is_unit_addon f2x_order0 "
-        "api_refines cdf_cache_sound cdf_eq_batch cdf_alpha_identity"
+        "api_refines cdf_cache_sound cdf_eq_batch cdf_alpha_identity "
+        # initial conditions and finalize (Props/C08Init.lean)
+        "first_column_cases gen_first_column_eq_batch gen_start_eq_batch_start static_ic_is_equilibrium "
+        "static_ic_zero_accel gen_eq_tsolve_all_options rf_rows_static_every_step finalize_accel_eom "
+        "finalize_accel_eom_cdf finalize_accel_rb finalize_partial_history "
+        # the concrete generators are one-step machines (Props/C08Inst.lean)
+        "unc_step_is_instance exp2_step_is_instance exp2Lin_addOn exp2_gen_eq_batch complex_step_is_instance "
+        "cplxLin_addOn complex_gen_eq_batch complex_recovery_is_real_part conj_pair_sum_real "
+        # call sequences on one object (Props/C08Api.lean)
+        "api_sequence_refines spec_finalize_is_tsolve latest_generator_wins second_finalize_fails "
+        "resumed_generator_unaffected "
+        # the generated branch table (Props/C08Branches.lean)
+        "generated_branches_ok request_writes_own_column"
     ).split()
 ]
 TRUSTED = [
-    "correspondence harness harness/props/c08.py: assembles the dense one-step maps T, P, Q, S "
-    "from the solver's integration coefficients (pc.F..Bp / pc.Fe, Ae, Be, ur / E, P, Q, invm, "
-    "ikrf) by the formulas documented in the solvers; the coefficients themselves are C01/C07's "
-    "subject, not C08's",
-    "additivity of the coefficient maps (they are numpy matrices / diagonal scalings)",
+    "correspondence harness harness/props/c08.py: hands the Lean driver the configuration and the "
+    "solver's stored integration coefficients (pc.F..Bp, pc.alpha, bo / pc.Fe, Ae, Be, ur_inv_*, "
+    "rur_*, iur_* / E_dd..E_vv, P, Q); the coefficients themselves are C01/C07's subject, not C08's",
+    "lean/Drivers/C08.lean instantiates the abstract coefficient maps with Float arrays in the "
+    "operation order of the source (diagonal scalings, row-major matrix products, Gaussian "
+    "elimination with partial pivoting for np.linalg.solve / lu_solve)",
+    "additivity of the coefficient maps (they are scalings / matrix products) and `solve` solving: "
+    "hypotheses of the theorems; IEEE round-off is measured (1e-9 of scale; bit for bit on the "
+    "real-uncoupled generator, the first column of the uncoupled solvers and the Force array)",
     "la.solve for alpha = bo (I + Bp bo)^-1: the identity bo (I - Bp alpha) = alpha assumed by "
     "cdf_cache_sound is re-measured on every cd-as-force case (residual <= 1e-10 of scale)",
-    "exact arithmetic in the theorems; IEEE round-off is measured (1e-9 of scale), the Force "
-    "array is compared bit for bit",
     "reading generator locals dmpfrc1 / i_last through gen.gi_frame.f_locals (skipped and "
     "counted if the names disappear)",
+    "translator harness/translate/c08_branches.py (Python ast, no execution): which generator "
+    "branch writes which array at which index",
 ]
 RULE = (
-    "a case is one (solver configuration, request list): random valid histories of length <= 60 "
-    "(advance, repeat the current step, jump back, add-ons incl. after redo) on nt in 4..14, all "
-    "valid request lists up to a bounded length on a 3-step horizon, and a malformed stream "
-    "(add-on first, i >= nt, i = 0, skipped steps); configurations cover SolveUnc real-uncoupled / "
-    "complex-coupled / cd_as_force, SolveCDF, SolveExp2, order 0/1, rb / rf blocks, rf-only, m "
-    "None / vector / full, static_ic / d0 / v0 / zero; non-trivial = the list contains a redo, a "
-    "jump-back or an add-on (the repo's tests send strictly increasing indices); distinct by "
-    "(configuration, request list)"
+    "a case is one (solver configuration, request list) or (configuration, API call list) or "
+    "(configuration, option combination, F0): random valid histories of length <= 60 (advance, repeat "
+    "the current step, jump back, add-ons incl. after redo) on nt in 4..14, all valid request lists up "
+    "to a bounded length on a 3-step horizon, a malformed stream (add-on first, i >= nt, i = 0, skipped "
+    "steps); every option combination d0 None/given x v0 None/given x static_ic False/True with F0 "
+    "generic / zero on the elastic rows / zero / dyadic through generator() and through tsolve(); API "
+    "call lists of eight shapes on one object (generator twice, generator-tsolve-resume, finalize "
+    "twice, finalize of a partial history, get_f2x around generator(), resume after finalize, a "
+    "generator killed by a refused request, random interleavings of up to three generators); "
+    "configurations cover SolveUnc real-uncoupled / complex-coupled / cd_as_force, SolveCDF, SolveExp2, "
+    "order 0/1, rb / rf blocks, rf-only, m None / vector / full; non-trivial = the list contains a redo, "
+    "a jump-back or an add-on (the repo's tests send strictly increasing indices), any option "
+    "combination other than all-default, any API call list; distinct by (configuration, list)"
 )
 ASSUMPTIONS = [
     "get_f2x for the zero-order hold returns zeros by documented design (the static residual-flexibility "
     "response of an order-0 add-on is not reported); the unit-add-on statement is for order 1",
     "generator limitations documented by pyyeti hold: contiguous rb/el/rf blocks (slices), no pre_eig",
     "systems are inside the solvers' conditioning domain (eig_success, distinct roots); others are skipped and counted",
-    "real equations of motion (systype float)",
+    "real equations of motion (systype float); nt >= 2 (for nt = 1 the generator function stops at a bare `yield`)",
+    "one solver object serves ONE live generator as far as finalize() is concerned: finalize() reports the "
+    "generator created last (theorem latest_generator_wins names the interleaving); the record finalize "
+    "returns aliases the generator's arrays, so a generator resumed after finalize() changes sol.d / sol.v / "
+    "sol.force but not sol.a (observed, not modelled: the model's records are values)",
 ]
 PARTIAL = ""
 MANIFEST = {
     "level_text": "proof",
     "level_note": (
         "machine-checked: invariant / batch equality / finalize / unit add-on for every valid "
-        "history of the abstract one-step machine, cache soundness of the cd-as-force generator "
-        "for every request list; tie = per-request correspondence of the real generators with the "
-        "Lean machines on the solver's own coefficients"
+        "history of the abstract one-step machine; the real-uncoupled, SolveExp2 (E, P, Q) and "
+        "complex-modal generators transcribed statement by statement ARE such machines; cache "
+        "soundness of the cd-as-force generator for every request list; the first column for every "
+        "option combination (generator() and tsolve() start alike, static_ic is the elastic "
+        "equilibrium, rf rows static at every step); finalize: M a + B v + K d = F in every column, "
+        "partial histories (nothing truncated, stale columns left in place, zeros beyond the largest "
+        "index sent); every admissible interleaving of generator() / send / tsolve() / finalize() / "
+        "get_f2x() on one object answers like independent pure histories, finalize() reporting the "
+        "generator created last.  Tied, not proved: that the Python statements are the transcribed "
+        "ones (per-request correspondence, bit for bit where the arithmetic is elementwise; branch "
+        "table regenerated from the source by ast), IEEE round-off, LAPACK solves"
     ),
-    "technique": "Lean 4 proof by induction over request lists + history correspondence",
+    "technique": "Lean 4 proof by induction over request lists and call lists + history / call-sequence correspondence + ast translator",
 }
+
+
+
+def translate(ctx):
+    """regenerate the branch table of the generator functions from the source (ast, no execution)"""
+    from translate import c08_branches
+
+    c08_branches.generate(ctx.repo, ctx.lean)
+    return ["GenMachineBranches.lean"]
+
 
 KINDS = ("unc", "cplx", "cdf_flag", "cdf", "exp2")
 TOL = 1e-9
@@ -178,6 +238,36 @@ def _mk_spec(rng, kind, order, nrb, nel, nrf, mstyle, ic, hstep=None, explicit_r
     return spec
 
 
+LAYOUTS = ("rb,el,rf", "el,rb,rf", "rf,rb,el", "rf,el,rb")  # orders that keep the non-rf rows contiguous
+
+
+def _relayout(spec, layout):
+    """the same system with its row blocks in another order (the generators need every partition
+    and the non-rf rows contiguous; which block comes first is the caller's business)"""
+    nrb, nel, nrf = spec["nrb"], spec["nel"], spec["nrf"]
+    old = {"rb": list(range(nrb)), "el": list(range(nrb, nrb + nel)), "rf": list(range(nrb + nel, nrb + nel + nrf))}
+    perm = []
+    part = {}
+    for name in layout.split(","):
+        part[name] = list(range(len(perm), len(perm) + len(old[name])))
+        perm += old[name]
+    ix = np.ix_(perm, perm)
+    out = dict(spec)
+    for key in ("m", "b", "k"):
+        if spec[key] is None:
+            continue
+        a_ = np.array(spec[key], dtype=float)
+        out[key] = (a_[perm] if a_.ndim == 1 else a_[ix]).tolist()
+    out["rf"] = part["rf"]
+    out["rb"] = part["rb"] if spec["rb"] is not None else None
+    out["part"] = part
+    out["layout"] = layout
+    ic = spec["ic"]
+    out["ic"] = {"d0": None if ic["d0"] is None else [ic["d0"][q] for q in perm],
+                 "v0": None if ic["v0"] is None else [ic["v0"][q] for q in perm], "static": ic["static"]}
+    return out
+
+
 def _ic(rng, style, n):
     if style == "zero":
         return {"d0": None, "v0": None, "static": False}
@@ -218,6 +308,13 @@ def _configs(ctx, count):
         out.append(_mk_spec(rng, kind, order, nrb, nel, nrf, ms, _ic(rng, ic, n)))
         if bi % 2 == 0:
             out[-1]["usage"] = {"f2x_first": True, "f0_dtype": ("int64", "float32", "float64")[(bi // 2) % 3]}
+    # the row blocks in every order that keeps the non-rf rows contiguous, on every solver
+    for ki, kind in enumerate(KINDS):
+        for li, layout in enumerate(LAYOUTS[1:]):
+            sp = _mk_spec(rng, kind, (ki + li) % 2, 1 + (li % 2), 2, 1 + ((ki + li) % 2), ("vec", "full", "none")[(ki + li) % 3],
+                          _ic(rng, ("static", "v0static", "d0v0")[li], 1 + (li % 2) + 2 + 1 + ((ki + li) % 2)),
+                          explicit_rb=(li == 1))
+            out.append(_relayout(sp, layout))
     while len(out) < count:
         kind = rng.choice(KINDS)
         order = rng.choice([0, 1, 1])
@@ -231,6 +328,8 @@ def _configs(ctx, count):
         if rng.random() < 0.45:
             out[-1]["usage"] = {"f2x_first": rng.random() < 0.6,
                                 "f0_dtype": rng.choice(["float64", "int64", "float32"])}
+        if rng.random() < 0.3:
+            out[-1] = _relayout(out[-1], rng.choice(LAYOUTS[1:]))
     return out
 
 
@@ -473,124 +572,132 @@ def _unhex(tok):
     return struct.unpack(">d", bytes.fromhex(tok))[0]
 
 
-def _dense_maps(run):
-    """T, P, Q, S of the one-step map x=[d_nonrf; v_nonrf], r=[d_rf; a_rb(complex path)] from
-    the solver's own coefficients, by the formulas documented in the solver sources."""
-    ts = run.ts
-    spec = run.spec
-    n = ts.n
-    order = ts.order
-    nonrf = np.arange(n)[ts.nonrf]
-    rfi = np.arange(n)[ts.rf]
-    nn = nonrf.size
-    nrf = rfi.size
-    path = run.path
-    T = np.zeros((2 * nn, 2 * nn))
-    P = np.zeros((2 * nn, n))
-    Q = np.zeros((2 * nn, n))
-    loc = {g: j for j, g in enumerate(nonrf)}  # global -> position inside nonrf
-    arb_rows = []
-    if nrf:
-        if ts.unc:
-            ikrf = np.diag(ts.ikrf.ravel())
+# ---------------------------------------------------------------------------------------
+# requests for the Lean driver (lean/Drivers/C08.lean): everything the model needs is taken from
+# the configuration (partition, m / b / k blocks, options) and from the solver's stored
+# integration coefficients; the model computes the first column, every step, finalize itself
+
+
+def _mats(spec):
+    n = spec["n"]
+
+    def full(x):
+        a_ = np.array(x, dtype=float)
+        return np.diag(a_) if a_.ndim == 1 else a_
+
+    M = np.eye(n) if spec["m"] is None else full(spec["m"])
+    return M, full(spec["b"]), full(spec["k"])
+
+
+def _part(spec):
+    if spec.get("part"):
+        pt = spec["part"]
+        return np.array(pt["rb"], dtype=int), np.array(pt["el"], dtype=int), np.array(pt["rf"], dtype=int)
+    nrb, nel, nrf = spec["nrb"], spec["nel"], spec["nrf"]
+    rb = np.arange(0, nrb)
+    el = np.arange(nrb, nrb + nel)
+    rf = np.arange(nrb + nel, nrb + nel + nrf)
+    return rb, el, rf
+
+
+def _nonrf(spec):
+    rb, el, _ = _part(spec)
+    return np.sort(np.concatenate((rb, el)))
+
+
+def _partition_ok(ts, spec):
+    """the partition the solver made is the one the configuration was built with"""
+    rb, el, rf = _part(spec)
+    ar = np.arange(spec["n"])
+    try:
+        return (np.array_equal(ar[ts.rb], rb) and np.array_equal(ar[ts.el], el) and np.array_equal(ar[ts.rf], rf))
+    except Exception:
+        return False
+
+
+def _part_block(spec):
+    rb, el, rf = _part(spec)
+    return " ".join(str(x) for x in [rb.size, el.size, rf.size] + rb.tolist() + el.tolist() + rf.tolist())
+
+
+def _icenv_block(ts, spec):
+    _, _, K = _mats(spec)
+    rb, el, rf = _part(spec)
+    if ts.unc:
+        return " ".join(p for p in ("u", _hexs(np.diag(K)[el]), _hexs(np.diag(K)[rf])) if p)
+    return " ".join(p for p in ("c", _hexs(K[np.ix_(el, el)]), _hexs(K[np.ix_(rf, rf)])) if p)
+
+
+def _opts_block(ic):
+    parts = ["1" if ic["static"] else "0"]
+    for key in ("d0", "v0"):
+        if ic[key] is None:
+            parts.append("0")
         else:
-            ikrf = np.linalg.inv(np.array(ts.krf, dtype=float))
-    if path == "real-unc" or path == "real-cdf":
-        if nn:
+            parts.append("1 " + _hexs(ic[key]))
+    return " ".join(parts)
+
+
+def _cx(a):
+    a = np.asarray(a, dtype=complex)
+    return " ".join(p for p in (_hexs(a.real), _hexs(a.imag)) if p)
+
+
+def _mass_block(spec, rows, unc):
+    if spec["m"] is None or rows.size == 0:
+        return "n"
+    M, _, _ = _mats(spec)
+    if unc:
+        return "d " + _hexs(np.diag(M)[rows])
+    return "f " + _hexs(M[np.ix_(rows, rows)])
+
+
+def _solver_block(ts, spec, path, nt):
+    """SOLVER block: the integration coefficients as stored on the solver object (they are C01's and
+    C07's subject), mass blocks from the configuration"""
+    rb, el, rf = _part(spec)
+    nonrf = _nonrf(spec)
+    order = ts.order
+    if path in ("real-unc", "real-cdf"):
+        parts = ["unc" if path == "real-unc" else "cdf", str(order), str(nt)]
+        if nonrf.size:
             pc = ts.pc
-            I = np.arange(nn)
-            T[I, I] = pc.F
-            T[I, nn + I] = pc.G
-            T[nn + I, I] = pc.Fp
-            T[nn + I, nn + I] = pc.Gp
+            parts += [_hexs(x) for x in (pc.F, pc.G, pc.A, pc.B, pc.Fp, pc.Gp, pc.Ap, pc.Bp)]
             if path == "real-cdf":
-                return None  # handled by the concrete CdfMachine
-            if order == 1:
-                P[I, nonrf] = pc.A
-                P[nn + I, nonrf] = pc.Ap
-                Q[I, nonrf] = pc.B
-                Q[nn + I, nonrf] = pc.Bp
-            else:
-                P[I, nonrf] = pc.A + pc.B
-                P[nn + I, nonrf] = pc.Ap + pc.Bp
-    elif path == "se2":
-        if nn:
-            ks = nn
-            T[:ks, :ks] = ts.E_dd
-            T[:ks, ks:] = ts.E_dv
-            T[ks:, :ks] = ts.E_vd
-            T[ks:, ks:] = ts.E_vv
-            if ts.m is None:
-                invm = np.eye(ks)
-            elif ts.unc:
-                invm = np.diag(1.0 / np.asarray(ts.m, dtype=float))
-            else:
-                invm = np.linalg.inv(np.asarray(ts.m, dtype=float))
-            Pm = np.asarray(ts.P) @ invm
-            P[:ks, nonrf] = Pm[ks:]
-            P[ks:, nonrf] = Pm[:ks]
-            if order == 1:
-                Qm = np.asarray(ts.Q) @ invm
-                Q[:ks, nonrf] = Qm[ks:]
-                Q[ks:, nonrf] = Qm[:ks]
-    else:  # complex
-        pc = ts.pc
-        rb = np.arange(n)[ts.rb]
-        el = np.arange(n)[ts.kdof]
-        R = np.array([loc[g] for g in rb], dtype=int)
-        E = np.array([loc[g] for g in el], dtype=int)
-        if rb.size:
-            if ts.m is None:
-                imrb = np.eye(rb.size)
-            elif ts.unc:
-                imrb = np.diag(ts.imrb.ravel())
-            else:
-                m_orig = np.asarray(spec["m"], dtype=float)
-                m_orig = np.diag(m_orig) if m_orig.ndim == 1 else m_orig
-                imrb = np.linalg.inv(m_orig[np.ix_(rb, rb)])
-            T[R, R] = 1.0
-            T[R, nn + R] = pc.G
-            T[nn + R, nn + R] = 1.0
-            if order == 1:
-                P[np.ix_(R, rb)] = pc.A * imrb
-                Q[np.ix_(R, rb)] = 0.5 * pc.A * imrb
-                P[np.ix_(nn + R, rb)] = pc.Ap * imrb
-                Q[np.ix_(nn + R, rb)] = pc.Ap * imrb
-            else:
-                P[np.ix_(R, rb)] = 1.5 * pc.A * imrb
-                P[np.ix_(nn + R, rb)] = 2.0 * pc.Ap * imrb
-            arb_rows = [(rb, imrb)]
-        if el.size:
-            if ts.m is None:
-                invm = np.eye(el.size)
-            elif ts.unc:
-                invm = np.diag(1.0 / np.asarray(ts.m, dtype=float))
-            else:
-                invm = np.linalg.inv(np.asarray(ts.m, dtype=float))
-            Z = pc.Fe[:, None] * np.hstack((pc.ur_inv_d, pc.ur_inv_v))
-            cols = np.concatenate((E, nn + E))
-            T[np.ix_(E, cols)] = pc.rur_d @ Z.real - pc.iur_d @ Z.imag
-            T[np.ix_(nn + E, cols)] = pc.rur_v @ Z.real - pc.iur_v @ Z.imag
-            Wm = pc.ur_inv_v @ invm
-            if order == 1:
-                Pz = pc.Ae[:, None] * Wm
-                Qz = pc.Be[:, None] * Wm
-                Q[np.ix_(E, el)] = pc.rur_d @ Qz.real - pc.iur_d @ Qz.imag
-                Q[np.ix_(nn + E, el)] = pc.rur_v @ Qz.real - pc.iur_v @ Qz.imag
-            else:
-                Pz = (pc.Ae + pc.Be)[:, None] * Wm
-            P[np.ix_(E, el)] = pc.rur_d @ Pz.real - pc.iur_d @ Pz.imag
-            P[np.ix_(nn + E, el)] = pc.rur_v @ Pz.real - pc.iur_v @ Pz.imag
-    nw = nrf + sum(r.size for r, _ in arb_rows)
-    S = np.zeros((nw, n))
-    if nrf:
-        S[np.ix_(np.arange(nrf), rfi)] = ikrf
-    row = nrf
-    for r, im in arb_rows:
-        S[np.ix_(np.arange(row, row + r.size), r)] = im
-        row += r.size
-    return dict(T=T, P=P, Q=Q, S=S, nonrf=nonrf, rf=rfi,
-                arb=(arb_rows[0][0] if arb_rows else np.arange(0)), nx=2 * nn, nw=nw)
+                parts += [_hexs(pc.alpha), _hexs(ts.bo)]
+        return " ".join(p for p in parts if p)
+    if path == "se2":
+        parts = ["exp2", str(order), str(nt)]
+        if nonrf.size:
+            Q = ts.Q if np.ndim(ts.Q) == 2 else np.zeros_like(ts.P)  # order 0: getEPQ returns no Q matrix
+            parts += [_hexs(x) for x in (ts.E_dd, ts.E_dv, ts.E_vd, ts.E_vv, ts.P, Q)]
+        parts.append(_mass_block(spec, nonrf, ts.unc))
+        return " ".join(p for p in parts if p)
+    pc = ts.pc
+    ny = int(pc.Fe.size)
+    parts = ["cpx", str(order), str(nt), str(ny)]
+    if rb.size:
+        parts.append(_hexs([pc.G, pc.A, pc.Ap]))
+    else:
+        parts.append(_hexs([0.0, 0.0, 0.0]))
+    parts.append(_mass_block(spec, rb, ts.unc))
+    parts.append(_mass_block(spec, el, ts.unc))
+    parts += [_cx(pc.Fe), _cx(pc.Ae), _cx(pc.Be), _cx(pc.ur_inv_v), _cx(pc.ur_inv_d),
+              _hexs(pc.rur_d), _hexs(pc.iur_d), _hexs(pc.rur_v), _hexs(pc.iur_v)]
+    return " ".join(p for p in parts if p)
+
+
+def _eom_block(ts, spec, path):
+    rb, el, rf = _part(spec)
+    kd = el if path == "complex" else _nonrf(spec)
+    M, B, K = _mats(spec)
+    hasm = spec["m"] is not None
+    if ts.unc and not ts.cdforces:
+        parts = ["u", "1" if hasm else "0"] + ([_hexs(np.diag(M)[kd])] if hasm else []) + [_hexs(np.diag(B)[kd]), _hexs(np.diag(K)[kd])]
+    else:
+        ix = np.ix_(kd, kd)
+        parts = ["c", "1" if hasm else "0"] + ([_hexs(M[ix])] if hasm else []) + [_hexs(B[ix]), _hexs(K[ix])]
+    return " ".join(p for p in parts if p)
 
 
 def _ops_tokens(ops):
@@ -603,39 +710,27 @@ def _ops_tokens(ops):
     return " ".join(toks)
 
 
-def _lean_request(run, ops):
-    """(request line, decoder info) for this run"""
-    ts = run.ts
-    n = ts.n
-    if run.path == "real-cdf" and ts.ksize:
-        pc = ts.pc
-        kd = np.arange(n)[ts.kdof]
-        rfi = np.arange(n)[ts.rf]
-        k0, k = (int(kd[0]), kd.size)
-        r0, nr = (int(rfi[0]), rfi.size) if rfi.size else (0, 0)
-        ikrf = ts.ikrf.ravel() if nr else np.zeros(0)
-        head = "cdf %d %d %d %d %d %d %d" % (n, k0, k, r0, nr, run.nt, ts.order)
-        coefs = " ".join(_hexs(x) for x in (pc.F, pc.G, pc.A, pc.B, pc.Fp, pc.Gp, pc.Ap, pc.Bp))
-        line = " ".join([head, coefs, _hexs(pc.alpha), _hexs(ts.bo)] + ([_hexs(ikrf)] if nr else [])
-                        + [_hexs(run.f0), _hexs(run.d[kd, 0]), _hexs(run.v[kd, 0]), _ops_tokens(ops)])
-        return line, dict(kind="cdf", kd=kd, rf=rfi, k=k, nr=nr, n=n)
-    maps = _dense_maps(run)
-    nx, nw = maps["nx"], maps["nw"]
-    x0 = np.concatenate((run.d[maps["nonrf"], 0], run.v[maps["nonrf"], 0]))
-    head = "lin %d %d %d %d" % (n, nx, nw, run.nt)
-    parts = [head]
-    for key in ("T", "P", "Q", "S"):
-        if maps[key].size:
-            parts.append(_hexs(maps[key]))
-    parts.append(_hexs(run.f0))
-    if nx:
-        parts.append(_hexs(x0))
-    parts.append(_ops_tokens(ops))
-    return " ".join(p for p in parts if p), dict(kind="lin", maps=maps, n=n)
+def _pristine(spec):
+    """the solver as constructed, never used: the model's coefficients are read off THIS object, so
+    a call that changes stored coefficients (get_f2x, generator, tsolve, finalize) cannot go unnoticed"""
+    _build(spec)
+    return _PROTO[json.dumps(spec, sort_keys=True)]
 
 
-def _decode(rep, info):
-    """list of records (col, arrays...) or error strings"""
+def _prefix(run):
+    return " ".join([_part_block(run.spec), _icenv_block(run.ts, run.spec)])
+
+
+def _hist_request(run, ops):
+    return " ".join(p for p in ["hist", _prefix(run), _solver_block(_pristine(run.spec), run.spec, run.path, run.nt),
+                                _opts_block(run.spec["ic"]), _hexs(run.f0), _ops_tokens(ops)] if p)
+
+
+def _floats(toks):
+    return np.array([_unhex(x) for x in toks], dtype=float)
+
+
+def _decode_hist(rep, n, k, cdf):
     out = []
     if rep == "":
         return out
@@ -644,24 +739,12 @@ def _decode(rep, info):
             out.append(rec)
             continue
         t = rec.split()
-        col = int(t[0])
-        if info["kind"] == "cdf":
-            k, nr, n = info["k"], info["nr"], info["n"]
-            vals = [_unhex(x) for x in t[1:1 + 2 * k + nr + n + k]]
-            d = np.array(vals[:k])
-            v = np.array(vals[k:2 * k])
-            r = np.array(vals[2 * k:2 * k + nr])
-            f = np.array(vals[2 * k + nr:2 * k + nr + n])
-            dmp = np.array(vals[2 * k + nr + n:])
-            out.append(dict(col=col, d=d, v=v, r=r, f=f, fbits=t[1 + 2 * k + nr:1 + 2 * k + nr + n],
-                            dmp=dmp, ilast=int(t[-1])))
-        else:
-            m = info["maps"]
-            nx, nw, n = m["nx"], m["nw"], info["n"]
-            vals = [_unhex(x) for x in t[1:]]
-            x = np.array(vals[:nx])
-            out.append(dict(col=col, d=x[:nx // 2], v=x[nx // 2:], r=np.array(vals[nx:nx + nw]),
-                            f=np.array(vals[nx + nw:nx + nw + n]), fbits=t[1 + nx + nw:1 + nx + nw + n]))
+        r = dict(col=int(t[0]), d=_floats(t[1:1 + n]), v=_floats(t[1 + n:1 + 2 * n]),
+                 a=_floats(t[1 + 2 * n:1 + 3 * n]), f=_floats(t[1 + 3 * n:1 + 4 * n]))
+        if cdf:
+            r["dmp"] = _floats(t[1 + 4 * n:1 + 4 * n + k])
+            r["ilast"] = int(t[-1])
+        out.append(r)
     return out
 
 
@@ -702,17 +785,35 @@ def _scales(run, sol):
     return sd, sd / h, sd / (h * h)
 
 
-def _compare_case(ctx, spec, nt, f0, ops, rep_line, info, run, recs, frame_bad, stream):
+def _same_bits(a, b):
+    """bit patterns equal (+0.0 and -0.0 are told apart only where the values differ otherwise)"""
+    a = np.asarray(a, dtype=float)
+    b = np.asarray(b, dtype=float)
+    return a.shape == b.shape and (a.tobytes() == b.tobytes() or np.array_equal(a, b))
+
+
+def _vec_bad(impl, model, scale, exact):
+    if impl.shape != model.shape:
+        return True
+    if exact:
+        return not _same_bits(impl, model)
+    _dev("model", impl - model, scale)
+    return bool(np.any(np.abs(impl - model) > TOL * scale)) or not np.all(np.isfinite(impl))
+
+
+def _compare_case(ctx, spec, nt, f0, ops, rep_line, run, recs, frame_bad, stream):
     """impl records vs Lean reply; reports disagreements; returns branch tags"""
     inp = {"spec": spec, "nt": nt, "f0": list(f0), "ops": ops, "check": "history"}
-    model = _decode(rep_line, info)
+    n = spec["n"]
+    cdf = run.path == "real-cdf"
+    exact = run.path == "real-unc"  # elementwise arithmetic only: the model is bit-exact
+    model = _decode_hist(rep_line, n, spec["nrb"] + spec["nel"], cdf)
     tags = set()
     if frame_bad:
         ctx.disagree(stream + ":frame", inp, frame_bad, "a request writes only its own column")
     if len(model) != len(recs):
         ctx.disagree(stream + ":length", inp, "%d records" % len(recs), "%d records" % len(model))
         return tags
-    # scale from the final state of the real run
     ts = run.ts
     try:
         sol = ts.finalize(get_force=True)
@@ -731,32 +832,20 @@ def _compare_case(ctx, spec, nt, f0, ops, rep_line, info, run, recs, frame_bad, 
         if a_["col"] != m_["col"]:
             ctx.disagree(stream + ":column", dict(inp, step=step - 1), a_["col"], m_["col"])
             continue
-        if info["kind"] == "cdf":
-            rows_x = info["kd"]
-            rows_r = info["rf"]
-            r_impl = a_["dcol"][rows_r]
-            r_scale = sd
-        else:
-            mp = info["maps"]
-            rows_x = mp["nonrf"]
-            r_impl = np.concatenate((a_["dcol"][mp["rf"]], a_["acol"][mp["arb"]]))
-            r_scale = np.concatenate((np.full(mp["rf"].size, sd), np.full(mp["arb"].size, sa)))
         bad = None
-        _dev("model", a_["dcol"][rows_x] - m_["d"], sd)
-        _dev("model", a_["vcol"][rows_x] - m_["v"], sv)
-        if np.any(np.abs(a_["dcol"][rows_x] - m_["d"]) > TOL * sd):
-            bad = ("d", a_["dcol"][rows_x].tolist(), m_["d"].tolist())
-        elif np.any(np.abs(a_["vcol"][rows_x] - m_["v"]) > TOL * sv):
-            bad = ("v", a_["vcol"][rows_x].tolist(), m_["v"].tolist())
-        elif r_impl.size and np.any(np.abs(r_impl - m_["r"]) > TOL * r_scale):
-            bad = ("static-rows", r_impl.tolist(), m_["r"].tolist())
-        elif [_hex(x) for x in a_["fcol"]] != [_hex(x) for x in m_["f"]] and not (
-                np.array_equal(a_["fcol"], m_["f"])):
+        which = "first-column" if step == 0 else None
+        if _vec_bad(a_["dcol"], m_["d"], sd, exact):
+            bad = (which or "d", a_["dcol"].tolist(), m_["d"].tolist())
+        elif _vec_bad(a_["vcol"], m_["v"], sv, exact):
+            bad = (which or "v", a_["vcol"].tolist(), m_["v"].tolist())
+        elif _vec_bad(a_["acol"], m_["a"], sa, exact):
+            bad = ("static-rows", a_["acol"].tolist(), m_["a"].tolist())
+        elif not _same_bits(a_["fcol"], m_["f"]):
             bad = ("force", a_["fcol"].tolist(), m_["f"].tolist())
         if bad:
-            ctx.disagree(stream + ":" + bad[0], dict(inp, step=step - 1), bad[1], bad[2])
+            ctx.disagree(stream + ":" + bad[0] + (":bits" if exact else ""), dict(inp, step=step - 1), bad[1], bad[2])
             break
-        if info["kind"] == "cdf":
+        if cdf:
             hid = a_["hidden"]
             if hid is None:
                 ctx.skip("cdf hidden locals dmpfrc1/i_last not readable")
@@ -767,6 +856,8 @@ def _compare_case(ctx, spec, nt, f0, ops, rep_line, info, run, recs, frame_bad, 
                 if np.any(np.abs(hid[0] - m_["dmp"]) > TOL * max(sv * float(np.abs(ts.bo).max()), 1e-300)):
                     ctx.disagree(stream + ":dmpfrc1", dict(inp, step=step), hid[0].tolist(), m_["dmp"].tolist())
                     break
+    if exact:
+        tags.add("exact:real-unc-bits")
     return tags
 
 
@@ -812,51 +903,443 @@ def _cases(ctx):
         cases.append((_new_case(ctx, spec, 5, [[1, f()], [2, f()], [0, f()], [-1, f()], [1, f()]]), "malformed"))
         cases.append((_new_case(ctx, spec, 6, [[1, f()], [3, f()], [-1, f()], [4, f()], [2, f()], [3, f()]]), "malformed"))
         cases.append((_new_case(ctx, spec, 6, [[2, f()], [-3, f()], [3, f()], [1, f()], [2, f()]]), "malformed"))
-    return cases
+    return cases, specs
+
+
+# ---- first column (initial conditions) ---------------------------------------------------
+
+IC_STYLES = ("zero", "static", "d0", "v0", "d0v0", "d0static", "v0static", "d0v0static")
+
+
+def _ic_full(rng, style, n):
+    """every option combination d0 None/given x v0 None/given x static_ic False/True"""
+    d0 = [rng.gauss(0, 0.01) for _ in range(n)] if "d0" in style else None
+    v0 = [rng.gauss(0, 0.5) for _ in range(n)] if "v0" in style else None
+    return {"d0": d0, "v0": v0, "static": style.endswith("static")}
+
+
+def _ic_label(ic):
+    return "d0=%d,v0=%d,static=%d" % (ic["d0"] is not None, ic["v0"] is not None, bool(ic["static"]))
+
+
+def _f0_variants(rng, spec):
+    """initial forces: generic; zero on the elastic rows (`F0[el].any()` False); all zero; dyadic"""
+    n = spec["n"]
+    rb, el, rf = _part(spec)
+    gen = _force(rng, n)
+    noel = list(gen)
+    for j in el:
+        noel[j] = 0.0
+    dy = [rng.choice([-1, 1]) * rng.choice([0.5, 1.0, 2.0, 3.0, 0.25]) for _ in range(n)]
+    return [("generic", gen), ("el-zero", noel), ("zero", [0.0] * n), ("dyadic", dy)]
+
+
+def _ic_impl(spec, ic, f0, via):
+    """first column of d, v through generator() or through tsolve()"""
+    ts = _build(spec)
+    kw = _ickw(dict(spec, ic=ic))
+    with warnings.catch_warnings():
+        warnings.simplefilter("ignore")
+        if via == "gen":
+            _, d, v = ts.generator(3, np.array(f0, dtype=float), **kw)
+            return ts, d[:, 0].copy(), v[:, 0].copy()
+        sol = ts.tsolve(np.array(f0, dtype=float)[:, None], **kw)
+        return ts, np.asarray(sol.d)[:, 0].copy(), np.asarray(sol.v)[:, 0].copy()
+
+
+def _ic_stream(ctx, drv, specs):
+    rng = ctx.rng
+    items = []
+    reqs = []
+    seen_kind = {}
+    for spec in specs:
+        key = (spec["kind"], spec["nrb"] > 0, spec["nrf"] > 0, spec["m"] is None, spec.get("layout", LAYOUTS[0]))
+        if seen_kind.get(key, 0) >= ctx.pick(2, 6):
+            continue
+        seen_kind[key] = seen_kind.get(key, 0) + 1
+        proto = _build(spec)
+        if not _well_conditioned(proto, spec):
+            continue
+        for style in IC_STYLES:
+            ic = _ic_full(rng, style, spec["n"])
+            for fname, f0 in _f0_variants(rng, spec):
+                if fname == "dyadic" and style not in ("static", "v0static"):
+                    continue
+                items.append((spec, ic, fname, f0))
+                reqs.append(" ".join(p for p in ["ic", _part_block(spec), _icenv_block(proto, spec), _opts_block(ic), _hexs(f0)] if p))
+    reps = drv.ask(reqs)
+    for (spec, ic, fname, f0), rep in zip(items, reps):
+        if rep == "bad-op":
+            raise Infra("driver rejected a C08 ic request")
+        n = spec["n"]
+        parts = [_floats(p.split()) for p in rep.split("|")]
+        inp = {"spec": dict(spec, ic=ic), "f0": f0, "check": "ic"}
+        lab = _ic_label(ic)
+        rb, el, rf = _part(spec)
+        hit_static = ic["static"] and ic["d0"] is None and el.size and any(f0[j] != 0.0 for j in el)
+        for via, (md, mv) in (("gen", parts[0:2]), ("batch", parts[2:4])):
+            ts, d0c, v0c = _ic_impl(spec, ic, f0, via)
+            exact = bool(ts.unc)
+            sd = max(float(np.abs(d0c).max()), float(np.abs(md).max()), 1e-300)
+            sv = max(float(np.abs(v0c).max()), float(np.abs(mv).max()), 1e-300)
+            if not _partition_ok(ts, spec):
+                ctx.disagree("ic:partition", inp, "rb/el/rf of the solver", "rb/el/rf of the configuration")
+            if _vec_bad(d0c, md, sd, exact):
+                ctx.disagree("ic:%s:d%s" % (via, ":bits" if exact else ""), inp, d0c.tolist(), md.tolist())
+            elif _vec_bad(v0c, mv, sv, exact):
+                ctx.disagree("ic:%s:v%s" % (via, ":bits" if exact else ""), inp, v0c.tolist(), mv.tolist())
+            ctx.case(("ic", json.dumps(spec, sort_keys=True), json.dumps(ic), fname, via),
+                     nontrivial=(lab != "d0=0,v0=0,static=0"), branch="stream:ic")
+            ctx.count("ic:" + via)
+            ctx.count("ic-layout:" + spec.get("layout", LAYOUTS[0]))
+            ctx.count("ic-exact" if exact else "ic-numeric")
+        ctx.count("icopt:" + lab)
+        ctx.count("ic:f0-" + fname)
+        if hit_static:
+            ctx.count("ic:static-solve-unc" if _build(spec).unc else "ic:static-solve-coupled")
+        if ic["static"] and ic["d0"] is None and not hit_static:
+            ctx.count("ic:static-any-false")
+        if ic["static"] and ic["d0"] is not None:
+            ctx.count("ic:static-ignored-d0-given")
+
+
+# ---- API call sequences on one solver object ------------------------------------------------
+
+
+def _api_sequence(rng, spec, shape):
+    """a call list on ONE solver object.  Calls: ["G", nt, ic, f0], ["S", g, i, f] (i = -1: add-on),
+    ["T", nt, ic, force columns], ["Z", get_force], ["X", velo].  Sends are documented requests
+    for the generator they go to (its own `1 <= i <= last + 1`); `shape` chooses the pattern."""
+    n = spec["n"]
+    calls = []
+    gens = []  # [nt, cur]
+
+    def newgen():
+        nt = rng.randint(3, 7)
+        calls.append(["G", nt, _ic_full(rng, rng.choice(IC_STYLES), n), _force(rng, n)])
+        gens.append([nt, 0])
+        return len(gens) - 1
+
+    def send(g, kind=None):
+        nt, cur = gens[g]
+        r = rng.random()
+        if kind == "adv" or cur == 0 or (kind is None and r < 0.5 and cur + 1 < nt):
+            if cur + 1 >= nt:
+                i = cur
+            else:
+                i = cur + 1
+        elif kind is None and r < 0.65 and cur >= 1:
+            calls.append(["S", g, -1, _force(rng, n)])
+            return
+        elif r < 0.85 or cur < 2:
+            i = cur
+        else:
+            i = rng.randint(1, cur - 1)
+        calls.append(["S", g, i, _force(rng, n)])
+        gens[g][1] = i
+
+    def tsolve():
+        nt = rng.randint(1, 6)
+        calls.append(["T", nt, _ic_full(rng, rng.choice(IC_STYLES), n), [_force(rng, n) for _ in range(nt)]])
+
+    if shape == "gen-twice":            # generator() twice, both driven alternately, finalize
+        a = newgen()
+        for _ in range(rng.randint(1, 3)):
+            send(a)
+        b = newgen()
+        for _ in range(rng.randint(3, 9)):
+            send(rng.choice([a, b]))
+        calls.append(["Z", True])
+    elif shape == "gen-tsolve-resume":  # generator, tsolve in the middle, the generator resumed
+        a = newgen()
+        for _ in range(rng.randint(1, 3)):
+            send(a)
+        tsolve()
+        calls.append(["X", bool(rng.random() < 0.5)])
+        for _ in range(rng.randint(2, 6)):
+            send(a)
+        calls.append(["Z", bool(rng.random() < 0.5)])
+    elif shape == "finalize-twice":     # finalize, finalize again (AttributeError), also before any generator
+        if rng.random() < 0.5:
+            calls.append(["Z", False])
+        a = newgen()
+        for _ in range(rng.randint(1, 5)):
+            send(a)
+        calls.append(["Z", True])
+        calls.append(["Z", bool(rng.random() < 0.5)])
+    elif shape == "finalize-partial":   # fewer than nt steps sent, possibly ending on a jump back
+        a = newgen()
+        nt = gens[a][0]
+        reach = rng.randint(1, nt - 1)
+        for _ in range(reach):
+            send(a, "adv")
+        if rng.random() < 0.6 and gens[a][1] >= 2:
+            i = rng.randint(1, gens[a][1] - 1)
+            calls.append(["S", a, i, _force(rng, n)])
+            gens[a][1] = i
+            if rng.random() < 0.5:
+                calls.append(["S", a, -1, _force(rng, n)])
+        calls.append(["Z", True])
+    elif shape == "f2x-around":         # get_f2x before and after generator(), and between sends
+        calls.append(["X", False])
+        a = newgen()
+        calls.append(["X", True])
+        for _ in range(rng.randint(2, 6)):
+            send(a)
+            if rng.random() < 0.3:
+                calls.append(["X", bool(rng.random() < 0.5)])
+        calls.append(["Z", False])
+    elif shape == "resume-after-finalize":  # finalize, then the generator goes on, then a new one
+        a = newgen()
+        for _ in range(rng.randint(1, 3)):
+            send(a)
+        calls.append(["Z", True])
+        for _ in range(rng.randint(1, 3)):
+            send(a)
+        b = newgen()
+        send(b)
+        send(a)
+        calls.append(["Z", True])
+    elif shape == "dead-generator":     # a refused request kills that generator only
+        a = newgen()
+        b = newgen()
+        send(a)
+        send(b)
+        calls.append(["S", a, gens[a][0] + 2, _force(rng, n)])   # IndexError
+        calls.append(["S", a, 1, _force(rng, n)])                # StopIteration
+        send(b)
+        calls.append(["Z", True])
+    else:                                # random interleaving
+        a = newgen()
+        for _ in range(rng.randint(4, 14)):
+            r = rng.random()
+            if r < 0.12 and len(gens) < 3:
+                newgen()
+            elif r < 0.22:
+                tsolve()
+            elif r < 0.30:
+                calls.append(["Z", bool(rng.random() < 0.5)])
+            elif r < 0.36:
+                calls.append(["X", bool(rng.random() < 0.5)])
+            else:
+                send(rng.randrange(len(gens)))
+        calls.append(["Z", True])
+    return calls
+
+
+API_SHAPES = ("gen-twice", "gen-tsolve-resume", "finalize-twice", "finalize-partial", "f2x-around",
+              "resume-after-finalize", "dead-generator", "random")
+
+
+def _api_tokens(calls):
+    toks = []
+    for c in calls:
+        if c[0] == "G":
+            toks.append("G %d %s %s" % (c[1], _opts_block(c[2]), _hexs(c[3])))
+        elif c[0] == "S":
+            toks.append("S %d %s" % (c[1], ("a " + _hexs(c[3])) if c[2] < 0 else ("s %d %s" % (c[2], _hexs(c[3])))))
+        elif c[0] == "T":
+            toks.append("T %d %s %s" % (c[1], _opts_block(c[2]), " ".join(_hexs(col) for col in c[3])))
+        elif c[0] == "Z":
+            toks.append("Z %d" % (1 if c[1] else 0))
+        else:
+            toks.append("X")
+    return " ".join(toks)
+
+
+def _api_impl(spec, calls, phi):
+    """the calls on ONE real solver object; outputs are snapshots taken when the call returns"""
+    ts = _build(spec)
+    gens = []
+    outs = []
+    with warnings.catch_warnings():
+        warnings.simplefilter("ignore")
+        for c in calls:
+            if c[0] == "G":
+                kw = _ickw({"ic": c[2]})
+                gen, d, v = ts.generator(c[1], np.array(c[3], dtype=float), **kw)
+                gens.append(dict(gen=gen, d=d, v=v, a=ts._a, f=ts._force, cur=None, nt=c[1]))
+                outs.append(("gen", len(gens) - 1, d[:, 0].copy(), v[:, 0].copy(), ts._a[:, 0].copy()))
+            elif c[0] == "S":
+                g = gens[c[1]]
+                try:
+                    g["gen"].send((c[2], np.array(c[3], dtype=float)))
+                except UnboundLocalError:
+                    outs.append(("err:unbound",))
+                    continue
+                except IndexError:
+                    outs.append(("err:index",))
+                    continue
+                except StopIteration:
+                    outs.append(("err:stop",))
+                    continue
+                if c[2] >= 0:
+                    g["cur"] = c[2]
+                j = g["cur"]
+                outs.append(("sent", j, g["d"][:, j].copy(), g["v"][:, j].copy(), g["a"][:, j].copy(), g["f"][:, j].copy()))
+            elif c[0] == "T":
+                kw = _ickw({"ic": c[2]})
+                sol = ts.tsolve(np.array(c[3], dtype=float).T.copy(), **kw)
+                outs.append(("sol", c[1], np.array(sol.d), np.array(sol.v), np.array(sol.a), None))
+            elif c[0] == "Z":
+                try:
+                    sol = ts.finalize(get_force=bool(c[1]))
+                except AttributeError:
+                    outs.append(("err:attr",))
+                    continue
+                outs.append(("sol", sol.d.shape[1], sol.d.copy(), sol.v.copy(), sol.a.copy(),
+                             sol.force.copy() if c[1] else None, hasattr(sol, "force")))
+            else:
+                outs.append(("flex", np.asarray(ts.get_f2x(phi, bool(c[1])), dtype=float)))
+    return outs, gens, ts
+
+
+def _decode_api(rep, n):
+    out = []
+    for rec in rep.split(";"):
+        t = rec.split()
+        if not t:
+            continue
+        if t[0].startswith("err:"):
+            out.append((t[0],))
+        elif t[0] == "gen":
+            out.append(("gen", int(t[1]), _floats(t[2:2 + n]), _floats(t[2 + n:2 + 2 * n]), _floats(t[2 + 2 * n:2 + 3 * n])))
+        elif t[0] == "sent":
+            v = _floats(t[2:])
+            out.append(("sent", int(t[1]), v[:n], v[n:2 * n], v[2 * n:3 * n], v[3 * n:4 * n]))
+        elif t[0] == "sol":
+            nt = int(t[1])
+            v = _floats(t[2:])
+            blk = n * nt
+            arrs = [v[q * blk:(q + 1) * blk].reshape(nt, n).T for q in range(len(v) // blk if blk else 0)]
+            while len(arrs) < 3:
+                arrs.append(np.zeros((n, nt)))
+            out.append(("sol", nt, arrs[0], arrs[1], arrs[2], arrs[3] if len(arrs) > 3 else None))
+        elif t[0] == "flex":
+            out.append(("flex",))
+        else:
+            out.append(("?", rec[:40]))
+    return out
+
+
+def _api_scales(spec, outs):
+    h = spec["h"]
+    md = mv = ma = 0.0
+    for o in outs:
+        if o[0] in ("gen", "sent"):
+            md = max(md, float(np.abs(o[2]).max()))
+            mv = max(mv, float(np.abs(o[3]).max()))
+            ma = max(ma, float(np.abs(o[4]).max()))
+        elif o[0] == "sol":
+            md = max(md, float(np.abs(o[2]).max()))
+            mv = max(mv, float(np.abs(o[3]).max()))
+            ma = max(ma, float(np.abs(o[4]).max()))
+    sd = max(md + h * mv + h * h * ma, 1e-300)
+    return sd, sd / h, sd / (h * h)
+
+
+def _api_compare(ctx, spec, shape, calls, impl, model, flex_model, path):
+    """returns None or (call index, what, impl, model).  Of the acceleration array only the rows the
+    generator itself writes (rigid-body rows, complex path) are compared after a send: the other
+    rows belong to `finalize`, which fills them in place (a generator resumed after `finalize`
+    still carries them; `generator()` hands out d and v only)."""
+    arows = _part(spec)[0] if path == "complex" else np.arange(0)
+    if len(impl) != len(model):
+        return (len(calls), "number-of-answers", len(impl), len(model))
+    sd, sv, sa = _api_scales(spec, impl)
+    for q, (a_, m_) in enumerate(zip(impl, model)):
+        if a_[0] != m_[0]:
+            return (q, "answer-kind", a_[0], m_[0])
+        if a_[0] == "gen":
+            if a_[1] != m_[1]:
+                return (q, "handle", a_[1], m_[1])
+            for nm, x, y, s_ in (("d", a_[2], m_[2], sd), ("v", a_[3], m_[3], sv), ("a", a_[4], m_[4], sa)):
+                if _vec_bad(x, y, s_, False):
+                    return (q, "first-column-" + nm, x.tolist(), y.tolist())
+        elif a_[0] == "sent":
+            if a_[1] != m_[1]:
+                return (q, "column", a_[1], m_[1])
+            for nm, x, y, s_ in (("d", a_[2], m_[2], sd), ("v", a_[3], m_[3], sv), ("a", a_[4][arows], m_[4][arows], sa)):
+                if _vec_bad(x, y, s_, False):
+                    return (q, "sent-" + nm, x.tolist(), y.tolist())
+            if not _same_bits(a_[5], m_[5]):
+                return (q, "sent-force", a_[5].tolist(), m_[5].tolist())
+        elif a_[0] == "sol":
+            if a_[1] != m_[1]:
+                return (q, "sol-nt", a_[1], m_[1])
+            for nm, x, y, s_ in (("d", a_[2], m_[2], sd), ("v", a_[3], m_[3], sv), ("a", a_[4], m_[4], sa)):
+                if _vec_bad(np.asarray(x), np.asarray(y), s_, False):
+                    return (q, ("finalize-" if calls[q][0] == "Z" else "tsolve-") + nm, np.asarray(x).tolist(), np.asarray(y).tolist())
+            if calls[q][0] == "Z":
+                want_force = bool(calls[q][1])
+                if (a_[5] is not None) != want_force or a_[6] != want_force or (m_[5] is not None) != want_force:
+                    return (q, "finalize-get_force", [a_[5] is not None, a_[6]], want_force)
+                if want_force and not _same_bits(a_[5], m_[5]):
+                    return (q, "finalize-force", a_[5].tolist(), m_[5].tolist())
+        elif a_[0] == "flex":
+            fm = flex_model[bool(calls[q][1])]
+            sc = max(float(np.abs(a_[1]).max()), float(np.abs(fm).max()), 1e-300)
+            if a_[1].shape != fm.shape or np.any(np.abs(a_[1] - fm) > TOL * sc):
+                return (q, "get_f2x", a_[1].tolist(), fm.tolist())
+    return None
 
 
 def _f2x_request(run, phi, velo):
-    """Lean request for get_f2x through GenMachine.f2x on the same maps"""
-    ts = run.ts
-    n = ts.n
-    ny = phi.shape[0]
-    if run.path == "real-cdf" and ts.ksize:
-        pc = ts.pc
-        kd = np.arange(n)[ts.kdof]
-        rfi = np.arange(n)[ts.rf]
-        k = kd.size
-        nr = rfi.size
-        O = np.zeros((ny, 2 * k + nr))
-        if velo:
-            O[:, k:2 * k] = phi[:, kd]
-        else:
-            O[:, :k] = phi[:, kd]
-            O[:, 2 * k:] = phi[:, rfi]
-        ikrf = ts.ikrf.ravel() if nr else np.zeros(0)
-        head = "cdff2x %d %d %d %d %d %d %d" % (n, int(kd[0]), k, int(rfi[0]) if nr else 0, nr, ny, ts.order)
-        coefs = " ".join(_hexs(x) for x in (pc.F, pc.G, pc.A, pc.B, pc.Fp, pc.Gp, pc.Ap, pc.Bp))
-        parts = [head, coefs, _hexs(pc.alpha), _hexs(ts.bo)] + ([_hexs(ikrf)] if nr else []) + [_hexs(O), _hexs(phi.T)]
-        return " ".join(parts)
-    maps = _dense_maps(run)
-    nx, nw = maps["nx"], maps["nw"]
-    nn = nx // 2
-    O = np.zeros((ny, nx + nw))
-    if velo:
-        O[:, nn:nx] = phi[:, maps["nonrf"]]
-    else:
-        O[:, :nn] = phi[:, maps["nonrf"]]
-        O[:, nx:nx + maps["rf"].size] = phi[:, maps["rf"]]
-    parts = ["f2x %d %d %d %d %d" % (ny, n, nx, nw, ts.order), _hexs(O)]
-    for key in ("Q", "S"):
-        if maps[key].size:
-            parts.append(_hexs(maps[key]))
-    parts.append(_hexs(phi.T))
-    return " ".join(parts)
+    return " ".join(p for p in ["f2x", _prefix(run), _solver_block(_pristine(run.spec), run.spec, run.path, run.nt),
+                                "1" if velo else "0", str(phi.shape[0]), _hexs(phi)] if p)
+
+
+def _api_stream(ctx, drv, specs):
+    rng = ctx.rng
+    np_rng = ctx.np_rng(81)
+    items = []
+    reqs = []
+    per_spec = ctx.pick(3, 5)
+    nspec = ctx.pick(60, 240)
+    for si, spec in enumerate(specs[:nspec]):
+        run0 = _Run(dict(spec, usage=None), 3, [0.0] * spec["n"])
+        if not _well_conditioned(run0.ts, spec):
+            ctx.skip("outside conditioning domain (eig_success False / not slices)")
+            continue
+        ny = int(np_rng.integers(1, 3))
+        phi = np_rng.normal(size=(ny, spec["n"]))
+        f2 = [_f2x_request(run0, phi, velo) for velo in (False, True)]
+        for r_ in range(per_spec):
+            shape = API_SHAPES[(si * per_spec + r_) % len(API_SHAPES)]
+            calls = _api_sequence(rng, spec, shape)
+            line = " ".join(p for p in ["api", _prefix(run0), _solver_block(_pristine(run0.spec), spec, run0.path, 0),
+                                        _eom_block(run0.ts, spec, run0.path), _api_tokens(calls)] if p)
+            items.append((spec, shape, calls, phi, run0.path))
+            reqs += [line] + f2
+    reps = drv.ask(reqs)
+    for q, (spec, shape, calls, phi, path) in enumerate(items):
+        rep, fx0, fx1 = reps[3 * q:3 * q + 3]
+        if "bad-op" in (rep, fx0, fx1):
+            raise Infra("driver rejected a C08 api / f2x request")
+        ny = phi.shape[0]
+        flex_model = {False: _floats(fx0.split()).reshape(ny, ny), True: _floats(fx1.split()).reshape(ny, ny)}
+        impl, _, _ = _api_impl(spec, calls, phi)
+        model = _decode_api(rep, spec["n"])
+        res = _api_compare(ctx, spec, shape, calls, impl, model, flex_model, path)
+        inp = {"spec": spec, "calls": calls, "phi": phi.tolist(), "check": "api"}
+        if res:
+            ctx.disagree("api:" + res[1], dict(inp, call=res[0]), res[2], res[3])
+        ctx.case(("api", json.dumps(spec, sort_keys=True), json.dumps(calls)), nontrivial=True, branch="stream:api")
+        ctx.count("api:" + shape)
+        ctx.count("api-path:" + path)
+        for o in impl:
+            if o[0].startswith("err:"):
+                ctx.count("api:" + o[0])
+        if sum(1 for c in calls if c[0] == "G") >= 2:
+            ctx.count("api:two-generators-one-object")
+        if len(ctx.samples) < 6 and shape in ("gen-twice", "resume-after-finalize"):
+            ctx.sample({"api_shape": shape, "kind": spec["kind"],
+                        "calls": [c[0] + (str(c[1]) if c[0] in "SZ" else "") + (":%d" % c[2] if c[0] == "S" else "") for c in calls]})
 
 
 def correspondence(ctx):
     drv = ctx.driver("C08")
-    cases = _cases(ctx)
+    cases, specs = _cases(ctx)
     reqs = []
     live = []
     np_rng = ctx.np_rng(8)
@@ -870,13 +1353,16 @@ def correspondence(ctx):
         if not _well_conditioned(run.ts, spec):
             ctx.skip("outside conditioning domain (eig_success False / not slices)")
             continue
-        line, info = _lean_request(run, case["ops"])
+        if not _partition_ok(run.ts, spec):
+            ctx.disagree("partition", {"spec": spec, "check": "partition"}, "rb/el/rf of the solver", "rb/el/rf of the configuration")
+            continue
+        line = _hist_request(run, case["ops"])
         recs, frame_bad = _drive(run, case["ops"])
         reqs.append(line)
-        live.append((case, stream, run, info, recs, frame_bad))
-    # get_f2x on a sample of configurations
+        live.append((case, stream, run, recs, frame_bad))
+    # get_f2x on every configuration
     seen = set()
-    for case, stream, run, info, recs, frame_bad in live:
+    for case, stream, run, recs, frame_bad in live:
         key = json.dumps(case["spec"], sort_keys=True)
         if key in seen:
             continue
@@ -893,18 +1379,20 @@ def correspondence(ctx):
         f2x_live.append((spec, phi, velo, run))
     rep = drv.ask(reqs + f2x_reqs)
     hist_rep, f2x_rep = rep[: len(reqs)], rep[len(reqs):]
-    for (case, stream, run, info, recs, frame_bad), line in zip(live, hist_rep):
+    for (case, stream, run, recs, frame_bad), line in zip(live, hist_rep):
         spec = case["spec"]
         tags = _tags(case["ops"])
         if line == "bad-op":
             raise Infra("driver rejected a C08 request")
-        etags = _compare_case(ctx, spec, case["nt"], case["f0"], case["ops"], line, info, run, recs, frame_bad, stream)
+        etags = _compare_case(ctx, spec, case["nt"], case["f0"], case["ops"], line, run, recs, frame_bad, stream)
         nontrivial = bool(tags & {"repeat", "jumpback", "addon", "malformed"})
         key = (json.dumps(spec, sort_keys=True), json.dumps(case["ops"]))
         ctx.case(key, nontrivial=nontrivial, branch="stream:" + stream)
         ctx.count("path:" + run.path)
         ctx.count("kind:" + spec["kind"])
         ctx.count("order:%d" % spec["order"])
+        ctx.count("machine:%s-order%d" % (run.path, spec["order"]))
+        ctx.count("layout:" + spec.get("layout", LAYOUTS[0]))
         if spec["nrb"]:
             ctx.count("feat:rb")
         if spec["nrf"]:
@@ -914,12 +1402,12 @@ def correspondence(ctx):
         ctx.count("feat:m-none" if spec["m"] is None else "feat:m-given")
         ic = spec["ic"]
         ctx.count("ic:static" if (ic["static"] and ic["d0"] is None) else ("ic:d0v0" if (ic["d0"] is not None or ic["v0"] is not None) else "ic:zero"))
-        ctx.count("icopt:d0=%d,v0=%d,static=%d" % (ic["d0"] is not None, ic["v0"] is not None, bool(ic["static"])))
+        ctx.count("hist-icopt:" + _ic_label(ic))
         for t in tags:
             ctx.count("op:" + t)
         for t in etags:
             ctx.count(t)
-        if info["kind"] == "cdf":
+        if run.path == "real-cdf":
             hits = 0
             miss = 0
             cur = 0
@@ -949,7 +1437,7 @@ def correspondence(ctx):
         if line == "bad-op":
             raise Infra("driver rejected a C08 f2x request")
         ny = phi.shape[0]
-        model = np.array([_unhex(t) for t in line.split()]).reshape(ny, ny)
+        model = _floats(line.split()).reshape(ny, ny)
         with warnings.catch_warnings():
             warnings.simplefilter("ignore")
             impl = np.asarray(run.ts.get_f2x(phi, velo), dtype=float)
@@ -957,13 +1445,24 @@ def correspondence(ctx):
         sc = max(float(np.abs(impl).max()), float(np.abs(model).max()), 1e-300)
         if impl.shape != model.shape or np.any(np.abs(impl - model) > TOL * sc):
             ctx.disagree("f2x", {"spec": spec, "phi": phi.tolist(), "velo": velo, "check": "f2x"}, impl.tolist(), model.tolist())
+    _ic_stream(ctx, drv, specs)
+    _api_stream(ctx, drv, specs)
     ctx.exhaustive = False  # exhaustive only over the finite set named in extra.exhaustive_set
     ctx.extra["max_deviation_over_scale_model"] = _DEV["model"]
     ctx.require_branches(
         ["path:real-unc", "path:real-cdf", "path:complex", "path:se2", "kind:cdf", "kind:cdf_flag",
          "order:0", "order:1", "feat:rb", "feat:rf", "feat:rf-only", "feat:m-none", "feat:m-given",
          "ic:static", "ic:d0v0", "op:repeat", "op:jumpback", "op:addon", "op:addon-after-redo",
-         "err:unbound", "err:index", "cdf:cache-hit", "cdf:cache-miss", "stream:enumerated", "stream:f2x"]
+         "err:unbound", "err:index", "cdf:cache-hit", "cdf:cache-miss", "stream:enumerated", "stream:f2x",
+         "exact:real-unc-bits", "stream:ic", "stream:api", "ic:gen", "ic:batch", "ic-exact", "ic-numeric",
+         "ic:static-solve-unc", "ic:static-solve-coupled", "ic:static-any-false", "ic:static-ignored-d0-given",
+         "ic:f0-el-zero", "ic:f0-zero", "ic:f0-dyadic"]
+        + ["icopt:d0=%d,v0=%d,static=%d" % (a_, b_, c_) for a_ in (0, 1) for b_ in (0, 1) for c_ in (0, 1)]
+        + ["machine:%s-order%d" % (p_, o_) for p_ in ("real-unc", "real-cdf", "complex", "se2") for o_ in (0, 1)]
+        + ["layout:" + l_ for l_ in LAYOUTS] + ["ic-layout:" + l_ for l_ in LAYOUTS]
+        + ["api:" + s_ for s_ in API_SHAPES]
+        + ["api-path:" + p_ for p_ in ("real-unc", "real-cdf", "complex", "se2")]
+        + ["api:err:attr", "api:err:index", "api:err:stop", "api:two-generators-one-object"]
     )
 
 
@@ -1026,6 +1525,181 @@ def _oracle_history(spec, nt, f0, ops, every=True):
             return ("finalize-" + name, len(ops), getattr(fin, name)[:, :c].tolist(), getattr(sol, name).tolist())
     if fin.d.shape != (n, nt) or len(fin.t) != nt:
         return ("finalize-shape", len(ops), list(fin.d.shape), [n, nt])
+    hw = max([i for i, _ in ops if i >= 0] + [0])
+    return _oracle_record(spec, fin, hw, len(ops))
+
+
+def _oracle_record(spec, fin, hw, step):
+    """what must hold of EVERY column of a finalized record, complete history or not: the equation
+    of motion on the non-rf rows, static residual-flexibility rows, zeros beyond the largest index
+    ever sent"""
+    M, B, K = _mats(spec)
+    rb, el, rf = _part(spec)
+    nr = _nonrf(spec)
+    nt = fin.d.shape[1]
+    for name in ("d", "v", "a", "force"):
+        arr = getattr(fin, name)
+        if np.any(arr[:, hw + 1:] != 0.0):
+            return ("finalize-unvisited-%s" % name, step, arr[:, hw + 1:].tolist(), "zeros beyond column %d" % hw)
+    if nr.size:
+        ix = np.ix_(nr, nr)
+        d, v, a, F = fin.d[nr], fin.v[nr], fin.a[nr], fin.force[nr]
+        res = M[ix] @ a + B[ix] @ v + K[ix] @ d - F
+        sc = np.abs(M[ix]) @ np.abs(a) + np.abs(B[ix]) @ np.abs(v) + np.abs(K[ix]) @ np.abs(d) + np.abs(F)
+        if np.any(np.abs(res) > TOL * sc + 1e-300) or not np.all(np.isfinite(res)):
+            j = int(np.argmax(np.max(np.abs(res) - TOL * sc, axis=0)))
+            return ("finalize-eom", step, {"column": j, "residual": res[:, j].tolist()}, "M a + B v + K d = F on the non-rf rows of every column")
+    if rf.size:
+        ixr = np.ix_(rf, rf)
+        res = K[ixr] @ fin.d[rf] - fin.force[rf]
+        sc = np.abs(K[ixr]) @ np.abs(fin.d[rf]) + np.abs(fin.force[rf])
+        if np.any(np.abs(res) > TOL * sc + 1e-300):
+            j = int(np.argmax(np.max(np.abs(res) - TOL * sc, axis=0)))
+            return ("finalize-rf-static", step, {"column": j, "residual": res[:, j].tolist()}, "k_rf d_rf = F_rf in every column")
+        if np.any(fin.v[rf] != 0.0) or np.any(fin.a[rf] != 0.0):
+            return ("finalize-rf-va", step, [fin.v[rf].tolist(), fin.a[rf].tolist()], "zeros")
+    return None
+
+
+def _oracle_ic(spec, ic, f0):
+    """the first column by the documented meaning of d0 / v0 / static_ic, through generator() and
+    through tsolve(); None or (stage, observed, required)"""
+    M, B, K = _mats(spec)
+    rb, el, rf = _part(spec)
+    nr = _nonrf(spec)
+    f0 = np.array(f0, dtype=float)
+    cols = {}
+    for via in ("gen", "batch"):
+        ts, d, v = _ic_impl(spec, ic, f0, via)
+        if not _well_conditioned(ts, spec):
+            return "skip"
+        cols[via] = (d, v)
+        pre = via + "-"
+        if ic["d0"] is not None:
+            want = np.array(ic["d0"], dtype=float)[nr]
+            if not np.array_equal(d[nr], want):
+                return (pre + "d0-not-copied", d[nr].tolist(), want.tolist())
+        elif ic["static"] and el.size and np.any(f0[el] != 0.0):
+            if np.any(d[rb] != 0.0):
+                return (pre + "static-rb-not-zero", d[rb].tolist(), "zeros")
+            ixe = np.ix_(el, el)
+            res = K[ixe] @ d[el] - f0[el]
+            sc = np.abs(K[ixe]) @ np.abs(d[el]) + np.abs(f0[el])
+            if np.any(np.abs(res) > TOL * sc + 1e-300) or not np.all(np.isfinite(d)):
+                return (pre + "static-not-equilibrium", {"d_el": d[el].tolist(), "residual": res.tolist()}, "k_ee d_el = F0_el")
+        elif np.any(d[nr] != 0.0):
+            return (pre + "d-not-zero", d[nr].tolist(), "zeros")
+        if ic["v0"] is not None:
+            want = np.array(ic["v0"], dtype=float)[nr]
+            if not np.array_equal(v[nr], want):
+                return (pre + "v0-not-copied", v[nr].tolist(), want.tolist())
+        elif np.any(v[nr] != 0.0):
+            return (pre + "v-not-zero", v[nr].tolist(), "zeros")
+        if rf.size:
+            ixr = np.ix_(rf, rf)
+            res = K[ixr] @ d[rf] - f0[rf]
+            sc = np.abs(K[ixr]) @ np.abs(d[rf]) + np.abs(f0[rf])
+            if np.any(np.abs(res) > TOL * sc + 1e-300) or np.any(v[rf] != 0.0):
+                return (pre + "rf-not-static", d[rf].tolist(), "k_rf d_rf = F0_rf, v_rf = 0")
+    for q, name in ((0, "d"), (1, "v")):
+        g, b_ = cols["gen"][q], cols["batch"][q]
+        sc = max(float(np.abs(g).max()), float(np.abs(b_).max()), 1e-300)
+        if np.any(np.abs(g - b_) > 1e-12 * sc):
+            return ("gen-vs-batch-" + name, g.tolist(), b_.tolist())
+    return None
+
+
+def _oracle_api(spec, calls, phi):
+    """the calls on one object against the same work done on fresh objects: every generator alone
+    (its arrays = batch tsolve of its own force history), every finalize = the generator created
+    last, replayed alone; tsolve / get_f2x = a fresh solver's.  None or (what, call, observed, required)"""
+    impl, gens, ts = _api_impl(spec, calls, phi)
+    n = spec["n"]
+    created = []   # per generator: dict(nt, ic, f0, ops so far, dead)
+    slot = None
+    for q, (c, out) in enumerate(zip(calls, impl)):
+        if c[0] == "G":
+            created.append(dict(nt=c[1], ic=c[2], f0=c[3], ops=[], dead=False))
+            slot = len(created) - 1
+        elif c[0] == "S":
+            g = created[c[1]]
+            if out[0].startswith("err:"):
+                if not g["dead"] and _valid(g["ops"] + [[c[2], c[3]]], g["nt"]):
+                    return ("send-refused", q, out[0], "a documented request is accepted")
+                g["dead"] = True
+            else:
+                g["ops"].append([c[2], c[3]])
+        elif c[0] == "T":
+            fresh = _build(spec)
+            with warnings.catch_warnings():
+                warnings.simplefilter("ignore")
+                sol = fresh.tsolve(np.array(c[3], dtype=float).T.copy(), **_ickw({"ic": c[2]}))
+            for nm, x, y in (("d", out[2], sol.d), ("v", out[3], sol.v), ("a", out[4], sol.a)):
+                sc = max(float(np.abs(y).max()), 1e-300)
+                if x.shape != y.shape or np.any(np.abs(x - y) > 1e-12 * sc):
+                    return ("tsolve-depends-on-object-history-" + nm, q, np.asarray(x).tolist(), np.asarray(y).tolist())
+        elif c[0] == "X":
+            fresh = _build(spec)
+            with warnings.catch_warnings():
+                warnings.simplefilter("ignore")
+                fx = np.asarray(fresh.get_f2x(phi, bool(c[1])), dtype=float)
+            sc = max(float(np.abs(fx).max()), 1e-300)
+            if out[1].shape != fx.shape or np.any(np.abs(out[1] - fx) > 1e-12 * sc):
+                return ("get_f2x-depends-on-object-history", q, out[1].tolist(), fx.tolist())
+        else:  # finalize
+            if slot is None:
+                if out[0] != "err:attr":
+                    return ("finalize-without-generator", q, out[0], "AttributeError")
+                continue
+            if out[0] != "sol":
+                return ("finalize-refused", q, out[0], "a solution record")
+            g = created[slot]
+            slot = None
+            if g["dead"] or not _valid(g["ops"], g["nt"]):
+                continue
+            gspec = dict(spec, ic=g["ic"], usage=None)
+            run = _Run(gspec, g["nt"], g["f0"])
+            for i, f in g["ops"]:
+                run.send(i, f)
+            with warnings.catch_warnings():
+                warnings.simplefilter("ignore")
+                fin = run.ts.finalize(get_force=True)
+            for nm, x, y in (("d", out[2], fin.d), ("v", out[3], fin.v), ("a", out[4], fin.a)):
+                sc = max(float(np.abs(y).max()), 1e-300)
+                if x.shape != y.shape or np.any(np.abs(x - y) > 1e-12 * sc):
+                    return ("finalize-not-the-latest-generator-alone-" + nm, q, np.asarray(x).tolist(), np.asarray(y).tolist())
+            if bool(c[1]) != bool(out[6]):
+                return ("finalize-get_force", q, "force attribute present: %s" % out[6], "only included if get_force is True (documented)")
+            if bool(c[1]) != (out[5] is not None) or (out[5] is not None and out[5].tobytes() != fin.force.tobytes()):
+                return ("finalize-force", q, None if out[5] is None else out[5].tolist(), fin.force.tolist() if c[1] else None)
+            hw = max([i for i, _ in g["ops"] if i >= 0] + [0])
+            rec = SimpleNamespace(d=out[2], v=out[3], a=out[4], force=fin.force)
+            r2 = _oracle_record(gspec, rec, hw, q)
+            if r2:
+                return (r2[0], q, r2[2], r2[3])
+    # every generator's own arrays at the end = batch of its own history (nobody else wrote to them)
+    for gi, (g, live) in enumerate(zip(created, gens)):
+        if g["dead"] or not _valid(g["ops"], g["nt"]):
+            continue
+        feff = np.zeros((n, g["nt"]))
+        feff[:, 0] = g["f0"]
+        cur = 0
+        for i, f in g["ops"]:
+            if i < 0:
+                feff[:, cur] += np.array(f, dtype=float)
+            else:
+                feff[:, i] = f
+                cur = i
+        fresh = _build(spec)
+        with warnings.catch_warnings():
+            warnings.simplefilter("ignore")
+            sol = fresh.tsolve(feff[:, : cur + 1].copy(), **_ickw({"ic": g["ic"]}))
+        h = spec["h"]
+        sd = max(float(np.abs(sol.d).max()) + h * float(np.abs(sol.v).max()) + h * h * float(np.abs(sol.a).max()), 1e-300)
+        if not _close(live["d"][:, : cur + 1], sol.d, sd):
+            return ("generator-%d-of-%d-disturbed-d" % (gi, len(created)), len(calls), live["d"][:, : cur + 1].tolist(), sol.d.tolist())
+        if not _close(live["v"][:, : cur + 1], sol.v, sd / h):
+            return ("generator-%d-of-%d-disturbed-v" % (gi, len(created)), len(calls), live["v"][:, : cur + 1].tolist(), sol.v.tolist())
     return None
 
 
@@ -1142,6 +1816,33 @@ def _report(ctx, spec, nt, f0, ops, res, shrink=True):
     )
 
 
+def _try_ic(ctx, spec, ic, f0, reported):
+    res = _oracle_ic(spec, ic, f0)
+    if res == "skip":
+        return
+    ctx.count("oracle-ic")
+    if res:
+        fam = "ic-%s-%s-%s" % (spec["kind"], _ic_label(ic).replace(",", "-").replace("=", ""), res[0])
+        if fam not in reported:
+            reported.add(fam)
+            ctx.fail(fam, "first column of the solution differs from the documented meaning of d0 / v0 / static_ic (%s)" % res[0],
+                     {"spec": dict(spec, ic=ic), "f0": list(f0), "check": "ic"}, res[1], res[2])
+
+
+def _try_api(ctx, spec, calls, phi, reported):
+    if not _well_conditioned(_build(spec), spec):
+        return
+    res = _oracle_api(spec, calls, phi)
+    ctx.count("oracle-api")
+    if res:
+        fam = "api-%s-order%d-%s" % (spec["kind"], spec["order"], res[0])
+        if fam not in reported:
+            reported.add(fam)
+            ctx.fail(fam, "call sequence on one solver object differs from the same work on fresh objects (%s at call %s of %s)"
+                     % (res[0], res[1], [c[0] for c in calls]),
+                     {"spec": spec, "calls": calls, "phi": np.asarray(phi).tolist(), "check": "api"}, res[2], res[3])
+
+
 def search(ctx, hints):
     rng = ctx.rng
     done = 0
@@ -1164,6 +1865,10 @@ def search(ctx, hints):
                          "get_f2x differs from the change a unit add-on produces",
                          {"spec": spec, "phi": inp["phi"], "velo": inp["velo"], "pre_ops": pre, "nt": 4, "f0": f0, "check": "f2x"},
                          res[2], res[3])
+        elif inp.get("check") == "ic":
+            _try_ic(ctx, inp["spec"], inp["spec"]["ic"], inp["f0"], set())
+        elif inp.get("check") == "api":
+            _try_api(ctx, inp["spec"], inp["calls"], np.array(inp["phi"]), set())
         if len(ctx.failures) >= 6:
             return
     # 2. base stream
@@ -1213,6 +1918,20 @@ def search(ctx, hints):
                     ctx.fail(fam, "get_f2x differs from the change a unit add-on produces (%s)" % res[0],
                              {"spec": spec, "phi": phi.tolist(), "velo": velo, "pre_ops": pre, "nt": 4, "f0": f0, "check": "f2x"},
                              res[2], res[3])
+        # initial conditions by their documented meaning, every option combination
+        if si < ctx.pick(60, 300):
+            for style in IC_STYLES:
+                ic = _ic_full(rng, style, n)
+                for fname, f0 in _f0_variants(rng, spec)[: (2 if style.endswith("static") else 1)]:
+                    _try_ic(ctx, spec, ic, f0, reported)
+        # call sequences on one object against fresh objects
+        for rep_ in range(2 if si < ctx.pick(80, 300) else 0):
+            np_rng = np.random.default_rng([ctx.seed, 89, si, rep_])
+            phi = np_rng.normal(size=(int(np_rng.integers(1, 3)), n))
+            shape = API_SHAPES[(2 * si + rep_) % len(API_SHAPES)]
+            _try_api(ctx, spec, _api_sequence(rng, spec, shape), phi, reported)
+        if len(ctx.failures) >= 6:
+            return
     ctx.extra["oracle_histories"] = done
     ctx.extra["max_deviation_over_scale_batch"] = _DEV["batch"]
 
@@ -1224,6 +1943,12 @@ def _replay_input(inp):
                            inp.get("f0", [1.0] * inp["spec"]["n"]))
     if inp.get("check") == "history" and _valid(inp["ops"], inp["nt"]):
         return _oracle_history(inp["spec"], inp["nt"], inp["f0"], inp["ops"])
+    if inp.get("check") == "ic":
+        r = _oracle_ic(inp["spec"], inp["spec"]["ic"], inp["f0"])
+        return r if (not r or r == "skip") else (r[0], 0, r[1], r[2])
+    if inp.get("check") == "api":
+        r = _oracle_api(inp["spec"], inp["calls"], np.array(inp["phi"]))
+        return r if not r else (r[0], r[1], r[2], r[3])
     return None
 
 
